@@ -114,7 +114,7 @@ def execute(script):
     cfg = script['config']
     n = cfg['n']
     # ---- world: a tree with a common prefix and branches; timestamps end shortly before EPOCH
-    sim = LedgerSim({'base': 'hlow_easy'}, PROP, res, Trace())
+    sim = LedgerSim({'base': 'hlow_easy', 'trusted_build': True}, PROP, res, Trace())
     total = cfg['prefix'] + max([b['len'] for b in cfg['branches']] + [0])
     step = 60 if total < 300 else 10
     t0 = EPOCH - 400 - (total + 2) * step
